@@ -6,12 +6,50 @@ use crate::{
 };
 
 use async_trait::async_trait;
-use crossbeam_queue::SegQueue;
 use futures::channel::mpsc;
 use futures::SinkExt;
 use parking_lot::Mutex;
 
+use std::collections::VecDeque;
 use std::sync::Arc;
+
+/// The rotation of a round-robin sender: every registered peer exactly once.
+///
+/// (A lock-free queue of ids cannot delete: the id of a forgotten peer stayed behind, a peer that
+/// came back under its identity was queued a second time and got two turns per round, and a send
+/// abandoned while it waited held the only copy of its peer's id and lost it.)
+#[derive(Default)]
+pub(crate) struct Rotation(Mutex<VecDeque<PeerIdentity>>);
+
+impl Rotation {
+    /// A peer has registered: it joins at the back, unless it is in the rotation already
+    pub(crate) fn join(&self, peer_id: &PeerIdentity) {
+        let mut queue = self.0.lock();
+        if !queue.contains(peer_id) {
+            queue.push_back(peer_id.clone());
+        }
+    }
+
+    /// A peer is forgotten
+    pub(crate) fn leave(&self, peer_id: &PeerIdentity) {
+        self.0.lock().retain(|id| id != peer_id);
+    }
+
+    /// The peer whose turn it is. It stays at the front until `served`: a send that is
+    /// abandoned while it waits neither loses the peer nor uses up its turn.
+    pub(crate) fn next(&self) -> Option<PeerIdentity> {
+        self.0.lock().front().cloned()
+    }
+
+    /// A message was sent to the peer: it goes to the back
+    pub(crate) fn served(&self, peer_id: &PeerIdentity) {
+        let mut queue = self.0.lock();
+        if let Some(at) = queue.iter().position(|id| id == peer_id) {
+            queue.remove(at);
+            queue.push_back(peer_id.clone());
+        }
+    }
+}
 
 pub(crate) struct Peer {
     pub(crate) send_queue: ZmqFramedWrite,
@@ -20,7 +58,7 @@ pub(crate) struct Peer {
 pub(crate) struct GenericSocketBackend {
     pub(crate) peers: scc::HashMap<PeerIdentity, Peer>,
     fair_queue_inner: Option<Arc<Mutex<QueueInner<ZmqFramedRead, PeerIdentity>>>>,
-    pub(crate) round_robin: SegQueue<PeerIdentity>,
+    pub(crate) round_robin: Rotation,
     socket_type: SocketType,
     socket_options: SocketOptions,
     pub(crate) socket_monitor: Mutex<Option<mpsc::Sender<SocketEvent>>>,
@@ -52,7 +90,7 @@ impl GenericSocketBackend {
         Self {
             peers: scc::HashMap::new(),
             fair_queue_inner,
-            round_robin: SegQueue::new(),
+            round_robin: Rotation::default(),
             socket_type,
             socket_options: options,
             socket_monitor: Mutex::new(None),
@@ -65,6 +103,7 @@ impl GenericSocketBackend {
     /// never be granted on a single-threaded runtime.
     pub(crate) async fn forget_peer(&self, peer_id: &PeerIdentity) {
         self.peers.remove_async(peer_id).await;
+        self.round_robin.leave(peer_id);
         if let Some(inner) = &self.fair_queue_inner {
             inner.lock().remove(peer_id);
         }
@@ -72,12 +111,8 @@ impl GenericSocketBackend {
 
     pub(crate) async fn send_round_robin(&self, message: Message) -> ZmqResult<PeerIdentity> {
         // In normal scenario this will always be only 1 iteration
-        // There can be special case when peer has disconnected and his id is still in
-        // RR queue This happens because SegQueue don't have an api to delete
-        // items from queue. So in such case we'll just pop item and skip it if
-        // we don't have a matching peer in peers map
         loop {
-            let next_peer_id = match self.round_robin.pop() {
+            let next_peer_id = match self.round_robin.next() {
                 Some(peer) => peer,
                 None => match message {
                     Message::Greeting(_) => panic!("Sending greeting is not supported"),
@@ -94,11 +129,14 @@ impl GenericSocketBackend {
             crate::__verif::yield_point("rr.after_pop").await;
             let send_result = match self.peers.get_async(&next_peer_id).await {
                 Some(mut peer) => peer.send_queue.send(message).await,
-                None => continue,
+                None => {
+                    self.round_robin.leave(&next_peer_id);
+                    continue;
+                }
             };
             return match send_result {
                 Ok(()) => {
-                    self.round_robin.push(next_peer_id.clone());
+                    self.round_robin.served(&next_peer_id);
                     Ok(next_peer_id)
                 }
                 Err(e) => {
@@ -138,7 +176,7 @@ impl MultiPeerBackend for GenericSocketBackend {
         self.peers
             .upsert_async(peer_id.clone(), Peer { send_queue })
             .await;
-        self.round_robin.push(peer_id.clone());
+        self.round_robin.join(peer_id);
         match &self.fair_queue_inner {
             None => {}
             Some(inner) => {
@@ -149,6 +187,7 @@ impl MultiPeerBackend for GenericSocketBackend {
 
     fn peer_disconnected(&self, peer_id: &PeerIdentity) {
         self.peers.remove_sync(peer_id);
+        self.round_robin.leave(peer_id);
         match &self.fair_queue_inner {
             None => {}
             Some(inner) => {
